@@ -34,6 +34,8 @@ class Universe:
         self.wbs = [pj.WBS() for _ in range(nw)]
         # long-lived list handles grabbed before any mutation; calls with via=1 go through them
         self.handles = [t.children for t in self.tasks] + [w.roots for w in self.wbs]
+        self.phandles = [t.predecessors for t in self.tasks]     # long-lived link-list objects
+        self.shandles = [t.successors for t in self.tasks]
         self.extra_wbs = []     # WBS objects created by clone/subtree (numbered W+1, ...)
         self.extra_tasks = []   # task objects created by clone/subtree (numbered N+W+1...)
 
@@ -53,10 +55,17 @@ class Universe:
                 ti = self.tidx()
                 saved.append([ti.get(id(x), 0) for x in h._list])
         st["handles"] = saved
+        ti = self.tidx()
+        for name, priv in (("phandles", "_Task__predecessors"), ("shandles", "_Task__successors")):
+            sv = []
+            for t, h in zip(self.tasks, getattr(self, name)):
+                sv.append(None if h._list is t.__dict__[priv] else [ti.get(id(x), 0) for x in h._list])
+            st[name] = sv
         return st
 
     def __setstate__(self, st):
         saved = st.pop("handles")
+        psaved, ssaved = st.pop("phandles", None), st.pop("shandles", None)
         self.__dict__.update(st)
         self.handles = []
         for n, sv in enumerate(saved, start=1):
@@ -64,6 +73,15 @@ class Universe:
             if sv is not None:
                 h._list = [self.task(i) for i in sv if i]
             self.handles.append(h)
+        self.phandles, self.shandles = [], []
+        for t, pv, sv in zip(self.tasks, psaved or [None] * len(self.tasks), ssaved or [None] * len(self.tasks)):
+            ph, sh = t.predecessors, t.successors
+            if pv is not None:
+                ph._list = [self.task(i) for i in pv if i]
+            if sv is not None:
+                sh._list = [self.task(i) for i in sv if i]
+            self.phandles.append(ph)
+            self.shandles.append(sh)
 
     # -- addressing --------------------------------------------------------------------------
     def task(self, t):
@@ -124,7 +142,8 @@ def project(U: Universe, attrs=True, obs=True):
     own = [0 if t.wbs is None else wi.get(id(t.wbs), U.w + 1) for t in U.tasks]
     g = {"par": par, "ch": ch, "pre": pre, "suc": suc, "own": own}
     # what the long-lived list handles show (hidden state of the binding: part of the state key only)
-    g["hv"] = [[tix(c) for c in h] for h in U.handles]
+    g["hv"] = [[tix(c) for c in h] for h in U.handles] + \
+              [[tix(c) for c in h] for h in getattr(U, "phandles", [])] + [[tix(c) for c in h] for h in getattr(U, "shandles", [])]
     if attrs:
         g["attr"] = [[_attr_code(t, "prio"), _attr_code(t, "tag")] for t in U.tasks]
     if obs:
@@ -213,8 +232,12 @@ def _dispatch(U, name, a):
             if z is not None:
                 U.tasks[t - 1] = z
                 U.handles[t - 1] = z.children
+                U.phandles[t - 1] = z.predecessors
+                U.shandles[t - 1] = z.successors
             raise
-        U.handles[t - 1] = U.tasks[t - 1].children      # the long-lived handle belongs to the new object
+        U.handles[t - 1] = U.tasks[t - 1].children      # the long-lived handles belong to the new object
+        U.phandles[t - 1] = U.tasks[t - 1].predecessors
+        U.shandles[t - 1] = U.tasks[t - 1].successors
         return None
     if name == "SetParent":
         T(t).parent = None if n == 0 else T(n)
@@ -264,15 +287,15 @@ def _dispatch(U, name, a):
         T(t).successors = [T(x) for x in seq]
         return None
     if name == "PredAppend":
-        T(t).predecessors.append(T(n))
+        (U.phandles[t - 1] if via else T(t).predecessors).append(T(n))
         return None
     if name == "PredRemove":
-        return _b(T(t).predecessors.remove(T(n)))
+        return _b((U.phandles[t - 1] if via else T(t).predecessors).remove(T(n)))
     if name == "SuccAppend":
-        T(t).successors.append(T(n))
+        (U.shandles[t - 1] if via else T(t).successors).append(T(n))
         return None
     if name == "SuccRemove":
-        return _b(T(t).successors.remove(T(n)))
+        return _b((U.shandles[t - 1] if via else T(t).successors).remove(T(n)))
     if name == "FloorDiv":
         xs = [T(x) for x in seq]
         arg = xs[0] if len(xs) == 1 else xs
@@ -442,4 +465,8 @@ def alphabet(N, W, L=2, ids=None, level=2, light=False):
                 A.append(act("ChInsert", n=n, t=t, i=0, via=1))
                 A.append(act("ChMove", n=n, seq=[t], before=t % N + 1, via=1))
             A.append(act("ChSort", n=n, key=1, rev=0, via=1))
+        for t in tasks:
+            for x in tasks:
+                for nm in ("PredAppend", "PredRemove", "SuccAppend", "SuccRemove"):
+                    A.append(act(nm, t=t, n=x, via=1))
     return A
